@@ -218,3 +218,65 @@ pub fn slow_storage_part(property: &str, seed: u64, cov: &mut Cov, errors: &mut 
     }
     found
 }
+
+/// A server (re)started while another program holds the database exclusively for longer than the
+/// lock-wait budget (a backup tool in exclusive locking mode, an operator's shell with an open
+/// write transaction). The start may fail or wait; once the other program is gone, a start succeeds
+/// and every accepted version and the snapshot are served as before (C07: restarts included).
+pub fn locked_open_part(property: &str, cov: &mut Cov) -> Option<Found> {
+    use taskchampion_sync_server_storage_sqlite::SqliteStorage;
+    for mode in ["exclusive-locking-mode", "open-write-transaction"] {
+        let fail = |m: String| Some(Found { property: property.into(), signature: format!("{property}:locked-open {mode}"), msg: format!("[a storage opened while another program holds the database ({mode}) for 6 s] {m}"), replay: json!({"origin": "locked-open", "case": 0}) });
+        let mut subj = Subject::new(Kind::SQL_LIB, Config::default()).ok()?;
+        let c = Uuid::new_v4();
+        let mut chain = vec![];
+        let mut p = Uuid::nil();
+        for i in 0..3u8 {
+            if let Resp::AddOk { vid, .. } = subj.exec(c, &Req::AddVersion { parent: p, data: vec![i + 7; 50] }) {
+                chain.push((vid, p));
+                p = vid;
+            }
+        }
+        if chain.len() < 3 {
+            return None;
+        }
+        let _ = subj.exec(c, &Req::AddSnapshot { vid: chain[1].0, data: b"a snapshot".to_vec() });
+        let reads = |s: &mut Subject| -> Vec<Resp> {
+            let mut v: Vec<Resp> = chain.iter().map(|(_, par)| s.exec(c, &Req::GetChild { parent: *par })).collect();
+            v.push(s.exec(c, &Req::GetSnapshot));
+            v
+        };
+        let before = reads(&mut subj);
+        let dir = subj.dir.as_ref()?.path().to_path_buf();
+        let db = crate::subject::db_file(&dir);
+        // (the storage opens a connection per transaction: none is open now)
+        let other = rusqlite::Connection::open(&db).ok()?;
+        let locked = if mode == "exclusive-locking-mode" {
+            other.execute_batch("PRAGMA locking_mode=EXCLUSIVE; BEGIN EXCLUSIVE;").is_ok()
+        } else {
+            other.execute_batch("BEGIN IMMEDIATE; CREATE TABLE IF NOT EXISTS operators_scratch (x);").is_ok()
+        };
+        if !locked {
+            continue;
+        }
+        let t0 = Instant::now();
+        let dir2 = dir.clone();
+        let opener = std::thread::spawn(move || SqliteStorage::new(&dir2).map(|_| ()).map_err(|e| format!("{e:#}")));
+        std::thread::sleep(Duration::from_millis(6_000));
+        let _ = other.execute_batch("ROLLBACK;");
+        drop(other);
+        let opened = opener.join().ok()?;
+        cov.evaluations += 1;
+        cov.hit(format!("locked-open|{mode}|open-{}", if opened.is_ok() { "succeeded" } else { "failed" }));
+        let waited = t0.elapsed().as_secs_f64();
+        if let Err(e) = subj.reopen() {
+            return fail(format!("the first start {} after {waited:.1} s; once the other program was gone the storage could not be opened any more: {e:#}", if opened.is_ok() { "succeeded" } else { "failed" }));
+        }
+        let after = reads(&mut subj);
+        if after != before {
+            let i = (0..before.len()).find(|i| after[*i] != before[*i]).unwrap_or(0);
+            return fail(format!("the first start {} after {waited:.1} s; once the other program was gone, read #{i} ({}) is answered {} (before: {})", if opened.is_ok() { "succeeded" } else { "failed" }, if i < 3 { "a version of the chain" } else { "the snapshot" }, after[i].short(), before[i].short()));
+        }
+    }
+    None
+}
